@@ -13,15 +13,11 @@ from tiv.sem import trace
 RULES = {
     "MEMO": "memo safety (shared, rules/common.py): a memoised function in this property's files (or called from them) is a function of its "
             "arguments only (no terminal/ambient/receiver state outside the key) and no caller mutates its result in place",
-    "R1": "the run-boundary predicate is symmetric and complete: under the renaming upper<->lower (px1<->px2, cluster1<->cluster2, a1<->a2, "
-          "a_cluster1<->a_cluster2) its set of disjuncts maps onto itself; it has a colour-change test for each half and, under alpha, both "
-          "directions (opaque->transparent, transparent->opaque) for each half; the 'both halves stay transparent' exemption is symmetric",
+    "R1": 'the run-boundary predicate of the block renderer, traced to an expression over (alpha, a1, a2, a_cluster1, a_cluster2, px == cluster per half), agrees on all 648 valuations of a finite abstract domain with: flush <=> not (alpha and both halves stay transparent) and (colour change in either half or, under alpha, a change of transparency class in either half)',
     "R2": "the state update is complete: every loop-carried variable that update_buffer() reads (cluster1, cluster2, a_cluster1, a_cluster2, n) "
           "is reassigned right after the flush (alpha classes under `if alpha`), n restarts, and update_buffer() is called once more after the "
           "inner loop (rest of the line) before the line terminator",
-    "R3": "the emission table is symmetric: the transparent branches of update_buffer map onto each other under the same renaming with "
-          "upper_pixel<->lower_pixel; the opaque branch writes BG from the lower and FG from the upper cluster and a blank iff they are equal; "
-          "the kitty workaround tests and nudges the same (background) cluster",
+    "R3": "the emission of update_buffer as a truth table over (alpha, upper transparent, lower transparent, halves equal), read off its symbolic output shape: both transparent -> SGR_DEFAULT + blanks; one half transparent -> SGR_DEFAULT + FG of the other half + that half's glyph; opaque -> BG from the lower cluster (+ FG of the upper one and the upper-half glyph unless equal); the kitty workaround tests and nudges the background cluster",
     "R4": "alpha classification: the text renderer requests round_alpha=True and derives `alpha` from the returned mode; _get_render_data rounds the "
           "threshold to 0..255, classifies with strict `<` (at or above is opaque) and composites over the terminal background under state-only "
           "conditions (no data-dependent shortcut)",
